@@ -43,7 +43,7 @@ def gen_o2o(rng, n=None):
         if c in (0x20, 0x5c, 0x23) or c > 0xfffe:
             continue
         chars.add(c)
-    maxcell = 63 if n <= 40 and rng.random() < 0.5 else (255 if n <= 200 else 0x7fff)
+    maxcell = 63 if n <= 40 and rng.random() < 0.5 else (255 if n <= 200 else 0x7ffe)
     cells = set()
     while len(cells) < n:
         cells.add(rng.randint(1, maxcell))
